@@ -56,6 +56,22 @@ def gen_cases(tier, seed):
         ldr = [2.0 ** -k for k in range(5, 5 + len(ladder))] if len(cases) % 2 else ladder
         cases.append(dict(lat=la, lon=lo2, alt=al, speed=sp, course=co, climb=cl, attitude=att,
                           weave=weave, type=typ, ladder=ldr, T=hz, phase=phase))
+    if tier == 'quick':
+        # the 1 ms end of the interval range, a two-minute horizon and one Schuler period on a few lattice points
+        # (the thorough tier has the full sub-lattice)
+        for k, ((la, lo, al), att) in enumerate(itertools.product(sites, kin.ATTITUDES)):
+            sp, co, cl = cruises[1 + k % 3]
+            typ = ('rate', 'increment')[k % 2]
+            cases.append(dict(lat=la, lon=lo, alt=al, speed=sp, course=co, climb=cl, attitude=att,
+                              weave=True, type=typ, ladder=[0.008, 0.004, 0.002, 0.001], T=8.0, phase=phase))
+            cases.append(dict(lat=la, lon=lo, alt=al, speed=sp, course=co, climb=0.0, attitude=att,
+                              weave=True, type=('increment', 'rate')[k % 2], ladder=[0.04, 0.02, 0.01, 0.005],
+                              T=120.0, phase=phase))
+        for (la, lo, al, sp, typ) in [(-60.0, 151.0, 3000.0, 30.0, 'rate'), (47.0, -170.0, 10000.0, 0.0, 'increment')]:
+            # (first in the list: they take about half a minute each and should not start last)
+            cases.insert(0, dict(lat=la, lon=lo, alt=al, speed=sp, course=200.0, climb=0.0,
+                                 attitude='yaw_osc_slow', weave=False, type=typ,
+                                 ladder=[0.08, 0.04, 0.02], T=5064.0, phase=phase))
     if tier == 'thorough':
         # the 2 ms / 1 ms pair and the long horizons on a sub-lattice
         sub_sites = [(-85.0, -179.5, 3000.0), (-33.0, 151.0, 20000.0), (0.0, 10.0, -500.0),
@@ -187,10 +203,10 @@ def run_case(case):
     T = case['T']
     sols, E = {}, {}
     for dt in ladder:
-        # every rung is integrated in consecutive chunks of about 1 s (the same duration on
+        # every rung is integrated in consecutive chunks of about 1 s (T/50 on long horizons; the same duration on
         # every rung, so that a history-dependent error would be common to all rungs and
         # could not hide in the halving changes); cases with weave use a single call
-        chunk = 0 if case['weave'] else int(round(1.0 / dt)) + 3
+        chunk = 0 if case['weave'] else int(round(max(1.0, T / 50.0) / dt)) + 3
         t, sol = run_pipeline(m, dt, T, case['type'], chunk)
         if not np.isfinite(sol).all():
             return dict(viol=[dict(sig='c01-nonfinite', msg='non-finite trajectory at dt=%g' % dt)],
